@@ -82,7 +82,7 @@ def _mc(ctx, q):
     for cfg in cfgs:
         r = ctx.tlc_mc('StateStore_MC', cfg, workers=4, timeout=14400, coverage=not q, heap='6g')
         # Iter is not a step of the exhaustive runs (it changes no state; IterSound is checked as an invariant in every state)
-        zeros = [z for z in (r.get('zero_actions') or []) if not z.startswith('<Iter ')]
+        zeros = [z for z in (r.get('zero_actions') or []) if not z.startswith('<ReadIter ') and not z.startswith('<Iter ')]
         if not q and zeros:
             raise vlib.Broken('vacuous model-checking run: actions never taken: %s' % zeros[:5])
 
@@ -135,10 +135,10 @@ def run_c01(ctx, q, b, stats):
                 '(overwrite) AND reads happen at a committed root that is not the newest; distinct by abstract action sequence')
     allb = ctx.tlc_genall('StateStore_All', 'StateStore_AllC01.cfg', timeout=7200)
     ctx.extra['exhaustive_small_config'] = dict(cfg='StateStore_AllC01.cfg', behaviours=len(allb))
-    for salt in range(1, 3 if q else 7):
+    for salt in range(1, 3 if q else 4):
         ctx.replay(b, allb, opts=dict(cfgs='plain/prefix', api='mix', salt=salt, stats=stats), par=8, count=(salt == 1), timeout=7200)
     _selftest_replay(ctx, b, allb, dict(cfgs='plain'))
-    n = 120 if q else 1200
+    n = 120 if q else 400
     small = ctx.tlc_sim('StateStore_MC', 'StateStore_GenC01s.cfg', num=n, depth=18, timeout=7200)
     ctx.replay(b, small, opts=dict(cfgs='plain/prefix', api='mix', salt=1, stats=stats, shape=1), par=8, timeout=7200)
     big = ctx.tlc_sim('StateStore_MC', 'StateStore_GenC01.cfg', num=n, depth=26, timeout=7200)
@@ -148,17 +148,17 @@ def run_c01(ctx, q, b, stats):
     sub = big[:len(big) // 6] if q else big[:len(big) // 10]
     ctx.replay(b, sub, opts=dict(cfgs='plain', ccfgs='memtree+val', kcfgs='prefix+memtree', api='store', salt=3, stats=stats, keepdir=keep, histdir=vlib.REPLAYS), par=6, count=False, timeout=7200)
     if not q:
-        for sd in range(1, 3):
+        for sd in range(1, 2):
             more = ctx.tlc_sim('StateStore_MC', 'StateStore_GenC01.cfg', num=n, depth=26, seed=ctx.seed * 100 + sd, timeout=7200)
             ctx.replay(b, more, opts=dict(cfgs='plain/prefix', api='mix', salt=3 + sd, stats=stats, shape=1), par=8, timeout=7200)
             ctx.replay(b, more[:len(more) // 10], opts=dict(cfgs='prefix', ccfgs='memtree', kcfgs='prefix+memtree+val/prune+memtree', api='tree', salt=6 + sd,
                                                            restart='kill', stats=stats, keepdir=keep, histdir=vlib.REPLAYS), par=6, count=False, timeout=7200)
     # recordings over a large alphabet
     ctx.validate_recording(b, 'StateStore_Trace', 'StateStore_Trace.cfg', recorder='seq',
-                           opts=dict(n=3 if q else 10, keys=64, vals=4, maxbatch=40, depth=40 if q else 80, mode='direct', cfgs='plain/prefix'),
+                           opts=dict(n=3 if q else 6, keys=64, vals=4, maxbatch=40, depth=40 if q else 80, mode='direct', cfgs='plain/prefix'),
                            selftest=True, timeout=7200)
     ctx.validate_recording(b, 'StateStore_Trace', 'StateStore_TraceBig.cfg', recorder='seq',
-                           opts=dict(n=1 if q else 4, keys=512, vals=4, maxbatch=300, depth=60 if q else 150, mode='direct', cfgs='prefix/plain', salt=1),
+                           opts=dict(n=1 if q else 2, keys=512, vals=4, maxbatch=300, depth=60 if q else 120, mode='direct', cfgs='prefix/plain', salt=1),
                            selftest=False, timeout=7200)
 
 
@@ -172,10 +172,10 @@ def run_c02(ctx, q, b, stats):
                 'same hash in all instances and equal to the process-wide binding of the concrete term; non-trivial = '
                 '>= 2 instances AND (some root computed more than once OR an update computed after an unrelated pending '
                 'update / rollback); distinct by abstract action sequence')
-    cfg = 'StateStore_AllC02q.cfg' if q else 'StateStore_AllC02.cfg'
+    cfg = 'StateStore_AllC02q.cfg'   # (StateStore_AllC02.cfg, 30 643 histories of 4 operations, is the next size up)
     allb = ctx.tlc_genall('StateStore_All', cfg, timeout=7200)
     ctx.extra['exhaustive_small_config'] = dict(cfg=cfg, behaviours=len(allb))
-    n = 100 if q else 700
+    n = 100 if q else 300
     sim = ctx.tlc_sim('StateStore_MC', 'StateStore_GenC02.cfg', num=n, depth=14, timeout=7200)
     keep = os.path.join(ctx.scratch, 'keep')
     # In the replay process itself: the configurations without node cache plus ONE of memtree / memtree+val (the global
@@ -185,10 +185,13 @@ def run_c02(ctx, q, b, stats):
     # growing) and fresh ones (ccfgs: a new process and database per behaviour).
     PFX = ['prefix+memtree', 'prefix+memtree+val', 'prune+memtree', 'prune+memtree+val', 'mvcc+memtree+val', 'memtree', 'memtree+val']
     ctx.replay(b, allb, opts=dict(cfgs='/'.join(LOCAL_PLAIN + ['memtree+val']), kcfgs='prefix+memtree/prune+memtree+val', api='store',
-                                 salt=1, variants=2, stats=stats, keepdir=keep, histdir=vlib.REPLAYS), par=8, timeout=7200)
+                                 salt=1, variants=2, emptyval=2, stats=stats, keepdir=keep, histdir=vlib.REPLAYS), par=8, timeout=7200)
+    if not q:
+        ctx.replay(b, allb, opts=dict(cfgs='/'.join(LOCAL_PLAIN + ['memtree']), kcfgs='prune+memtree/mvcc+memtree+val', api='store',
+                                     salt=2, variants=2, emptyval=2, stats=stats, keepdir=keep, histdir=vlib.REPLAYS), par=8, count=False, timeout=7200)
     used = set(LOCAL_PLAIN + ['memtree+val', 'prefix+memtree', 'prune+memtree+val'])
-    nround = 2 if q else 7
-    per = 40 if q else 120
+    nround = 2 if q else 4
+    per = 40 if q else 75
     for i in range(nround):
         mem = ['memtree', 'memtree+val'][i % 2]
         kc = [PFX[(2 * i) % len(PFX)], PFX[(2 * i + 1) % len(PFX)], PFX[(2 * i + 4) % len(PFX)]]
@@ -197,15 +200,15 @@ def run_c02(ctx, q, b, stats):
         used.update([mem] + kc + cc)
         k = (i * len(sim)) // nround
         bs = (sim[k:] + sim[:k])[:per]
-        ctx.replay(b, bs, opts=dict(cfgs='/'.join(LOCAL_PLAIN + [mem]), kcfgs='/'.join(kc), ccfgs='/'.join(cc), api='store', salt=1,
-                                     variants=2, stats=stats, keepdir=keep, histdir=vlib.REPLAYS, restart='kill' if i % 2 else 'close'),
+        ctx.replay(b, bs, opts=dict(cfgs='/'.join(LOCAL_PLAIN + [mem]), kcfgs='/'.join(kc), ccfgs='/'.join(cc), api='store', salt=1 + i,
+                                     variants=2, emptyval=2, stats=stats, keepdir=keep, histdir=vlib.REPLAYS, restart='kill' if i % 2 else 'close'),
                    par=6, count=(i == 0), timeout=7200)
     ctx.extra['configurations_exercised'] = sorted(used)
     _selftest_replay(ctx, b, sim, dict(cfgs='plain/prefix'))
     # code -> spec: recorded random runs on memTree configurations (fresh child per trace); the hash binding is a
     # variable of the trace specification (HashFunctional, HashOK)
     ctx.validate_recording(b, 'StateStore_Trace', 'StateStore_Trace.cfg', recorder='seq',
-                           opts=dict(n=3 if q else 12, keys=48, vals=3, maxbatch=24, depth=40 if q else 70, mode='pending', proc='child',
+                           opts=dict(n=3 if q else 8, keys=48, vals=3, maxbatch=24, depth=40 if q else 70, mode='pending', proc='child',
                                      cfgs='memtree+val/prune+memtree/prefix+memtree+val/mvcc+prefix' if not q else 'memtree+val/prune+memtree/prefix'),
                            selftest=True, timeout=7200)
 
@@ -220,32 +223,32 @@ def run_c04(ctx, q, b, stats):
     cfg = 'StateStore_AllC04q.cfg' if q else 'StateStore_AllC04.cfg'
     allb = ctx.tlc_genall('StateStore_All', cfg, timeout=7200)
     ctx.extra['exhaustive_small_config'] = dict(cfg=cfg, behaviours=len(allb))
-    ctx.replay(b, allb, opts=dict(cfgs='plain/prefix', api='mix', salt=1, stats=stats), par=8, timeout=7200)
+    ctx.replay(b, allb if q else allb[::6], opts=dict(cfgs='plain/prefix', api='mix', salt=1, stats=stats), par=8, timeout=7200)
     keep = os.path.join(ctx.scratch, 'keep')
-    sub = allb[::32] if q else allb[::40]
+    sub = allb[::32] if q else allb[::160]
     ctx.replay(b, sub, opts=dict(cfgs='prefix', ccfgs='memtree+val', kcfgs='prefix+memtree', api='store', salt=2, restart='kill', stats=stats, keepdir=keep, histdir=vlib.REPLAYS),
                par=6, count=False, timeout=7200)
     _selftest_replay(ctx, b, allb, dict(cfgs='plain'))
-    n = 120 if q else 1200
+    n = 120 if q else 400
     sim = ctx.tlc_sim('StateStore_MC', 'StateStore_GenC04.cfg', num=n, depth=20, timeout=7200)
     ctx.replay(b, sim, opts=dict(cfgs='plain/prefix/prune', api='mix', salt=3, stats=stats), par=8, timeout=7200)
     ctx.replay(b, sim[:len(sim) // 6] if q else sim[:len(sim) // 8], opts=dict(cfgs='plain', ccfgs='prefix+memtree/memtree+val', kcfgs='prune+memtree+val', api='mix', salt=4,
                                                                     stats=stats, keepdir=keep, histdir=vlib.REPLAYS), par=6, count=False, timeout=7200)
     if not q:
-        for sd in range(1, 3):
+        for sd in range(1, 2):
             more = ctx.tlc_sim('StateStore_MC', 'StateStore_GenC04.cfg', num=n, depth=20, seed=ctx.seed * 100 + sd, timeout=7200)
             ctx.replay(b, more, opts=dict(cfgs='plain/prefix', api='mix', salt=4 + sd, stats=stats), par=8, timeout=7200)
             ctx.replay(b, more[:len(more) // 10], opts=dict(cfgs='prune', ccfgs='prune+memtree+val', kcfgs='memtree/prefix+memtree+val', api='store', salt=7 + sd,
                                                            restart='kill', stats=stats, keepdir=keep, histdir=vlib.REPLAYS), par=6, count=False, timeout=7200)
     # sequential recordings with pending updates, then the concurrent leg
     ctx.validate_recording(b, 'StateStore_Trace', 'StateStore_Trace.cfg', recorder='seq',
-                           opts=dict(n=3 if q else 10, keys=48, vals=3, maxbatch=24, depth=50 if q else 90, mode='pending', cfgs='plain/prefix'),
+                           opts=dict(n=3 if q else 6, keys=48, vals=3, maxbatch=24, depth=50 if q else 90, mode='pending', cfgs='plain/prefix'),
                            selftest=True, timeout=7200)
     ctx.validate_recording(b, 'StateStore_Trace', 'StateStore_TraceBus.cfg', recorder='bus', dfs=True,
-                           opts=dict(n=2 if q else 6, clients=4 if q else 8, reqs=25 if q else 60, keys=6, maxbatch=4, rounds=8 if q else 20, maxreads=60 if q else 25,
+                           opts=dict(n=2 if q else 3, clients=4 if q else 6, reqs=25 if q else 40, keys=6, maxbatch=4, rounds=8 if q else 12, maxreads=60 if q else 15,
                                      cfgs='plain/prefix/memtree+val' if not q else 'plain/prefix'),
                            selftest=True, timeout=7200)
-    if not q:
+    if not q and os.environ.get('VERIF_SS_RACE') == '1':   # optional: needs a race-detector build of the driver (slow)
         _race_leg(ctx)
 
 
